@@ -22,6 +22,7 @@ Proof.
 Qed.
 
 Section Objs.
+  Variable gt : bool.                        (* any value of fix_goal_types: parse_objects does not read it *)
   Variable tt : typetable.
   Variable rec : sexp -> result (pydict string).
 
@@ -52,7 +53,7 @@ Section Objs.
   Lemma po_list_read n : forall l pending os acc,
     List.length l <= n ->
     read_objs l pending = Some os -> rec_ok l -> NoDup (dkeys acc ++ map fst os) ->
-    res_rel (po_list cfg_fixed tt rec false l pending acc) (if types_ok os then Some (acc ++ os) else None).
+    res_rel (po_list (cfg_gt gt) tt rec false l pending acc) (if types_ok os then Some (acc ++ os) else None).
   Proof.
     induction n as [|n IH]; intros l pending os acc Hlen Hread Hrec Hnd.
     - destruct l; [|simpl in Hlen; lia]. simpl in Hread. injection Hread as <-.
@@ -130,21 +131,21 @@ Proof.
 Qed.
 
 (* parse_objects_sx on the whole section *)
-Lemma parse_objects_private tt : forall l, rec_ok tt (parse_objects_sx cfg_fixed tt) l.
+Lemma parse_objects_private gt tt : forall l, rec_ok tt (parse_objects_sx (cfg_gt gt) tt) l.
 Proof.
   intros l k inner toks a _ Htoks Ha Hnd.
   apply atom_names_map in Htoks. subst inner.
   cbn [parse_objects_sx po_list].
-  pose proof (po_list_read tt (parse_objects_sx cfg_fixed tt) (List.length (map Atom toks)) (map Atom toks) [] a []
+  pose proof (po_list_read gt tt (parse_objects_sx (cfg_gt gt) tt) (List.length (map Atom toks)) (map Atom toks) [] a []
                 (le_n _)) as H.
   rewrite (read_objs_flat (List.length toks)) in H by apply le_n.
   specialize (H Ha (rec_ok_flat _ _ _)). simpl in H. exact (H Hnd).
 Qed.
 
-Theorem parse_objects_read tt k toks os :
+Theorem parse_objects_read gt tt k toks os :
   read_objs toks [] = Some os -> NoDup (map fst os) ->
-  res_rel (parse_objects_sx cfg_fixed tt (SList (Atom k :: toks))) (if types_ok tt os then Some os else None).
+  res_rel (parse_objects_sx (cfg_gt gt) tt (SList (Atom k :: toks))) (if types_ok tt os then Some os else None).
 Proof.
   intros Hread Hnd. cbn [parse_objects_sx po_list].
-  exact (po_list_read tt _ (List.length toks) toks [] os [] (le_n _) Hread (parse_objects_private tt toks) Hnd).
+  exact (po_list_read gt tt _ (List.length toks) toks [] os [] (le_n _) Hread (parse_objects_private gt tt toks) Hnd).
 Qed.
